@@ -15,6 +15,8 @@ From J5V.lib Require Import Outcome.
 From J5V.model Require Import RulesDecl RulesWrite RulesSpec Validate RulesSpecDec Regex.
 From J5V.gen Require Id62Gen RulesGen.
 From J5V.proofs Require Import RulesProofs RulesGenProofs RegexProofs RulesRegexProofs.
+From J5V.model Require Import RulesRead RulesEnum RulesNested RulesNestedSem RulesOneof RulesInlineEnum.
+From J5V.proofs Require Import RulesNestedSemProofs RulesOneofProofs.
 Import ListNotations.
 Local Open Scope N_scope.
 
@@ -134,6 +136,120 @@ Proof.
   exact (c12_object re_ok re_match pat_sem (proj1 He) (proj1 (proj2 He)) (engine_id62_bool re_ok re_match pat_sem He) env ds).
 Qed.
 Print Assumptions C12_message.
+
+(* ... the options of a oneof. A oneof compiles to a message whose fields are the members of
+   one proto oneof: each has presence, so the validator skips the rules of a member that is
+   not set and applies them to one that is set — with any value, the default included;
+   `required` on an option demands that this member is the one set. [member_sem]
+   (model/RulesOneof.v) is that declared meaning; [write_members] the compiled members. *)
+Theorem C12_oneof_members :
+  forall re_ok re_match pat_sem, engine_ok re_ok re_match pat_sem ->
+  forall env ds os fvs,
+    wf_env env = true ->
+    forallb member_decl ds = true -> forallb (evaluable re_ok) ds = true ->
+    write_members env ds = Ok os -> typed_obj ds fvs = true ->
+    (validate_obj re_ok re_match (defined_numbers env) os fvs = VAccept <-> member_obj pat_sem env ds fvs) /\
+    (validate_obj re_ok re_match (defined_numbers env) os fvs = VReject <-> ~ member_obj pat_sem env ds fvs).
+Proof.
+  intros re_ok re_match pat_sem He env ds os fvs Hwf Hm Hev Hw Hty.
+  unfold write_members in Hw. apply obind_ok in Hw as [os0 [Hos Hw]]. inversion Hw; subst os.
+  exact (c12_members re_ok re_match pat_sem (proj1 He) (proj1 (proj2 He)) (engine_id62_bool re_ok re_match pat_sem He)
+                     env Hwf ds 0%N os0 fvs Hm Hev Hos Hty).
+Qed.
+Print Assumptions C12_oneof_members.
+
+Theorem C12_oneof_spec_decided : forall re_match pat_sem,
+  (forall p s, re_match p s = true <-> pat_sem p s) ->
+  forall env ds fvs, member_objb re_match env ds fvs = true <-> member_obj pat_sem env ds fvs.
+Proof. exact member_objb_spec. Qed.
+Print Assumptions C12_oneof_spec_decided.
+
+(* non-vacuity: oneof { option s string { rules.minLength = 2 }; option n integer:INT32 { required = true } }
+   — n set (to 0: a set member, not an absent one): accepted; s set to "": rejected (minLength, and n
+   is not set); nothing set: rejected (n is required) *)
+Example C12_oneof_example :
+  let ds := [P [115] false false (PSingle (TStr None (Some (SR None (Some 2%N) None)) None)) [];
+             P [110] true false (PSingle (TInt I32 None None)) []] in
+  let env := EE [] None [] in
+  exists os, write_members env ds = Ok os /\
+    validate_obj re_frag_ok re_frag_match (defined_numbers env) os [FAbsent; FOne (VInt 0)] = VAccept /\
+    validate_obj re_frag_ok re_frag_match (defined_numbers env) os [FOne (VStr []); FAbsent] = VReject /\
+    validate_obj re_frag_ok re_frag_match (defined_numbers env) os [FAbsent; FAbsent] = VReject /\
+    member_objb re_frag_match env ds [FAbsent; FOne (VInt 0)] = true.
+Proof. eexists. split; [vm_compute; reflexivity|]. repeat split; vm_compute; reflexivity. Qed.
+
+(* ... a field over an enum declared inline (model/RulesInlineEnum.v): its in / not-in rules
+   name the options of THAT enum; the environment is the one the inline declaration denotes
+   (stated or default prefix). The property theorem applies with that environment: *)
+Theorem C12_inline_enum :
+  forall re_ok re_match pat_sem, engine_ok re_ok re_match pat_sem ->
+  forall idx d i c fv,
+    let env := env_of_decl (ie_decl (p_name d) i) in
+    wf_env env = true -> key_placement_ok d = true -> evaluable re_ok d = true ->
+    write_inline_enum idx d i = Ok c -> fvalue_typed d fv = true ->
+    (validate_sem re_ok re_match (defined_numbers env) (fst c) fv = VAccept <-> rule_sem pat_sem env d fv) /\
+    (validate_sem re_ok re_match (defined_numbers env) (fst c) fv = VReject <-> ~ rule_sem pat_sem env d fv).
+Proof.
+  intros re_ok re_match pat_sem He idx d i c fv env Hwf Hkp Hev Hw Hty.
+  unfold write_inline_enum in Hw. apply obind_ok in Hw as [o [Ho Hw]]. inversion Hw; subst c. cbn [fst].
+  exact (c12_main re_ok re_match pat_sem (proj1 He) (proj1 (proj2 He)) (engine_id62_bool re_ok re_match pat_sem He)
+                  env idx d o fv Hwf Hkp Hev Ho Hty).
+Qed.
+Print Assumptions C12_inline_enum.
+
+(* ... and to messages that hold messages: inline types (README "Inline Types"). A declaration
+   tree [nschema] of objects (model/RulesNested.v) compiles to a message with nested
+   messages; a value [mvalue] gives the field values of the message and, for every inline
+   type, the messages of that type its field holds. The modelled validator evaluates the
+   field constraints of the message and then the embedded messages of every populated
+   field, recursively (model/RulesNestedSem.v validate_tree); [rule_tree] is the declared
+   meaning: every property satisfies its rules, and so does every embedded message of an
+   inline type, recursively; for a oneof of the tree (root or inline) its options are
+   members (C12_oneof_members above; [c12_view] gives the fields of oneof messages their
+   presence). For trees whose properties are evaluable: *)
+Theorem C12_nested :
+  forall re_ok re_match pat_sem, engine_ok re_ok re_match pat_sem ->
+  forall env s path name m v,
+    wf_env env = true -> tree_evaluable re_ok s = true ->
+    write_schema env path name s = Ok m -> typed_tree s v = true ->
+    (validate_tree re_ok re_match (defined_numbers env) (c12_view m) v = VAccept <-> rule_tree pat_sem env s v) /\
+    (validate_tree re_ok re_match (defined_numbers env) (c12_view m) v = VReject <-> ~ rule_tree pat_sem env s v).
+Proof.
+  intros re_ok re_match pat_sem He env s path name m v Hwf Hev Hw Hty.
+  exact (c12_tree re_ok re_match pat_sem (proj1 He) (proj1 (proj2 He)) (engine_id62_bool re_ok re_match pat_sem He)
+                  env Hwf s path name m v Hev Hw Hty).
+Qed.
+Print Assumptions C12_nested.
+
+Theorem C12_nested_spec_decided : forall re_match pat_sem,
+  (forall p s, re_match p s = true <-> pat_sem p s) ->
+  forall env s v, rule_treeb re_match env s v = true <-> rule_tree pat_sem env s v.
+Proof. exact rule_treeb_spec. Qed.
+Print Assumptions C12_nested_spec_decided.
+
+(* non-vacuity: Foo { n : integer max 5; inner : inline object { s : string minLength 2 (required) } }
+   — a value whose embedded message violates minLength is rejected, one that satisfies
+   everything is accepted, and an absent inner message is accepted (the field is not required) *)
+Example C12_nested_example :
+  let s := NS RObject None []
+             [NF (P [110] false false (PSingle (TInt I32 (Some (IR None (Some 5%Z) None None)) None)) []) None;
+              NF (P [105;110;110;101;114] false false (PSingle (TObject [] false None)) [])
+                 (Some (NS RObject None []
+                    [NF (P [115] true false (PSingle (TStr None (Some (SR None (Some 2%N) None)) None)) []) None]))] in
+  let env := EE [] None [] in
+  exists m, write_schema env [] [70;111;111] s = Ok m /\
+    tree_evaluable re_frag_ok s = true /\
+    validate_tree re_frag_ok re_frag_match (defined_numbers env) (c12_view m)
+      (MV [FOne (VInt 3); FOne (VMsg 1)] [[MV [FOne (VStr [97;98])] []]]) = VAccept /\
+    validate_tree re_frag_ok re_frag_match (defined_numbers env) (c12_view m)
+      (MV [FOne (VInt 3); FOne (VMsg 1)] [[MV [FOne (VStr [97])] []]]) = VReject /\
+    validate_tree re_frag_ok re_frag_match (defined_numbers env) (c12_view m)
+      (MV [FOne (VInt 3); FAbsent] [[]]) = VAccept /\
+    validate_tree re_frag_ok re_frag_match (defined_numbers env) (c12_view m)
+      (MV [FOne (VInt 9); FOne (VMsg 1)] [[MV [FOne (VStr [97;98])] []]]) = VReject.
+Proof.
+  eexists. split; [vm_compute; reflexivity|]. repeat split; vm_compute; reflexivity.
+Qed.
 
 (* how "required" reads on a scalar declared without [optional] (the reading fixed in
    RulesSpec.v, made explicit): the compiled field has no presence of its own, the
